@@ -312,7 +312,8 @@ class Gen:
         call options, assembly, do-while, adjacent string parts, spaced member access."""
         isnum = lambda t: t.startswith("uint") or t.startswith("int")
         k = self.pick(["try", "try", "tuple", "delete", "push", "member", "named-revert", "named-call", "assembly", "dowhile",
-                       "adjacent", "spaced", "nested-map", "ternary-stmt", "new", "this-call", "tuple-decl", "return-early", "block", "emit-named"])
+                       "adjacent", "spaced", "nested-map", "ternary-stmt", "new", "this-call", "tuple-decl", "return-early", "block", "emit-named",
+                       "slice", "unary"])
         v = self.lvalue(sc, isnum)
         if k == "try" and self.tokens and d < 3:
             t = self.pick(self.tokens)
@@ -393,6 +394,11 @@ class Gen:
             sc.append((b, "bool"))
             self.writable.update([a, b])
             return ["(uint256 %s, bool %s) = (%s, %s);" % (a, b, self.uexpr(sc[:-2], 2), self.bexpr(sc[:-2], 2))]
+        if k == "slice":
+            lo, hi = self.pick([("", ""), ("", ""), ("4", ""), ("", "4"), ("0", "32"), (self.uexpr(sc, 3), "")])
+            return ["bytes memory cut%d = msg.data[%s:%s];" % (self.bump(), lo, hi)]
+        if k == "unary" and v:
+            return ["%s = %s%s;" % (v, self.pick(["+", "-", "~", "+"]), self.paren(self.uexpr(sc, 2)))]
         if k == "block" and d < 3:
             return ["{"] + ["    " + s for s in self.block(sc, d + 1, inloop)] + ["}"]
         if k == "emit-named" and self.events:
@@ -639,6 +645,12 @@ class Gen:
         out.append("}")
         if kind == "contract" or kind == "abstract contract":
             self.bases.append(nm)
+        elems = [t for _, t in ctx["vars"] if self.literal(t) is not None and t not in ("string", "bytes")]
+        if len(elems) >= 2 and self.chance(0.25):
+            # a second contract declaring variables of the same types in another order
+            perm = list(elems)
+            self.r.shuffle(perm)
+            out += ["", "contract %s {" % self.cname()] + ["    %s %s;" % (t, self.fresh()) for t in perm] + ["}"]
         return out
 
     def program(self):
@@ -653,6 +665,9 @@ class Gen:
         self.ver_ge_084 = vt >= (0, 8, 4)
         op = self.pick(OPS)
         has_pragma = self.chance(0.93)
+        unrelated = ["pragma abicoder v2;", "pragma experimental ABIEncoderV2;", 'pragma experimental "v0.5.0";', "pragma experimental SMTChecker;"]
+        if self.chance(0.12):
+            out.append(self.pick(unrelated))
         if has_pragma:
             sp = self.pick([" ", " ", "", "  "]) if op else " "
             v = op + (sp if op else "") + ver
@@ -694,6 +709,15 @@ class Gen:
             out += lines + [""]
         for _ in range(self.pick([1, 1, 1, 2, 2, 3])):
             out += self.contract() + [""]
+        if self.chance(0.15):
+            lib = self.pick(["SafeTransferLib", "SafeERC20", "TransferHelper", "SafeApprove%d" % self.bump()])
+            out += ["library %s {" % lib,
+                    "    function pull(IERC20 t, address from, uint256 v) internal { require(t.transferFrom(from, address(this), v)); }",
+                    "    function sel() internal pure returns (bytes4) { return IERC20.transfer.selector; }",
+                    "}", ""]
+            for _ in range(self.pick([1, 1, 2])):
+                out += ["function %s(IERC20 t, address to, uint256 v) {" % self.fresh("camel"),
+                        "    " + self.pick(["t.transfer(to, v);", "t.approve(to, v);", "t.transferFrom(msg.sender, to, v / 2 * 2);"]), "}", ""]
         if self.chance(0.15) and self.ver_ge_084:
             out += ["function %s(uint256 a, uint256 b) pure returns (uint256) {" % self.fresh("camel"), "    return %s;" % self.uexpr([("a", "uint256"), ("b", "uint256")]), "}", ""]
         text = "\n".join(out) + "\n"
